@@ -260,6 +260,23 @@ func ConnectOnly(proxyAddr, target string) (*PendingTunnel, error) {
 
 func (p *PendingTunnel) Close() { p.conn.Close() }
 
+// HandshakeAs completes the TLS handshake with an arbitrary SNI (empty = none) without verification and returns
+// the leaf the proxy presented, for the caller to judge.
+func (p *PendingTunnel) HandshakeAs(sni string) (*x509.Certificate, error) {
+	conn := p.conn
+	defer conn.Close()
+	conn.SetDeadline(time.Now().Add(30 * time.Second))
+	tc := tls.Client(conn, &tls.Config{ServerName: sni, InsecureSkipVerify: true})
+	if err := tc.Handshake(); err != nil {
+		return nil, fmt.Errorf("tls handshake: %w", err)
+	}
+	cs := tc.ConnectionState()
+	if len(cs.PeerCertificates) == 0 {
+		return nil, errors.New("no certificate presented")
+	}
+	return cs.PeerCertificates[0], nil
+}
+
 func (p *PendingTunnel) Handshake(serverName string, pool *x509.CertPool) (*Tunnel, error) {
 	conn := p.conn
 	conn.SetDeadline(time.Now().Add(30 * time.Second))
